@@ -7,6 +7,48 @@ func init() {
 	vHarnesses["VerifC05Nest"] = VerifC05Nest
 	vHarnesses["VerifC05Docs"] = VerifC05Docs
 	vHarnesses["VerifC05Precision"] = VerifC05Precision
+	vHarnesses["VerifC05Nulls"] = VerifC05Nulls
+}
+
+// VerifC05Nulls: documents with null members / elements under every option set, merge included
+// (C05 is stated for every a and b; only C01/C11 restrict merge to null-free documents).
+func VerifC05Nulls() {
+	k := vOptChoice(0x77)
+	gen := func() JsonNode {
+		if vChoice(2) == 0 {
+			o := jsonObject{}
+			for _, key := range []string{"a", "b"} {
+				switch vChoice(4) {
+				case 1:
+					o[key] = vNum()
+				case 2:
+					o[key] = jsonNull(nil)
+				case 3:
+					o[key] = jsonObject{"c": jsonNull(nil)}
+				}
+			}
+			return o
+		}
+		n := vChoice(vParam("N", 2) + 1)
+		arr := make(jsonArray, n)
+		for i := range arr {
+			if vChoice(2) == 0 {
+				arr[i] = vNum()
+			} else {
+				arr[i] = jsonNull(nil)
+			}
+		}
+		return arr
+	}
+	a, b := gen(), gen()
+	opts := vOptions(k)
+	if vKnown("hash.alias") {
+		vAssumeNoHashAlias(a, b)
+	}
+	d := a.Diff(b, opts...)
+	eq := a.Equals(b, opts...)
+	vAssert((len(d) == 0) == eq, "diff emptiness disagrees with Equals (documents with nulls)")
+	vCover("c05.nulls." + optName(k))
 }
 
 // VerifC05Precision: list mode with Precision(eps): the diff is empty exactly when Equals holds.
